@@ -106,6 +106,12 @@ func (o *Obligation) script() string {
 			if keepFact[i] || !strings.HasPrefix(d, "(assert") {
 				continue
 			}
+			if n, isDef := vc.factDefs[i]; isDef {
+				if need[n] {
+					keepFact[i] = true // its symbols were added when n was reached through defIndex
+				}
+				continue
+			}
 			syms := symbolsOf(d)
 			hit := false
 			for _, sym := range syms {
@@ -165,7 +171,7 @@ func (o *Obligation) script() string {
 var builtinSym = map[string]bool{"and": true, "or": true, "not": true, "ite": true, "select": true, "store": true, "forall": true, "exists": true,
 	"true": true, "false": true, "Int": true, "Bool": true, "Str": true, "Array": true, "assert": true, "mod": true, "div": true,
 	"gs.len": true, "gs.at": true, "gs.empty": true, "gs.diff": true, "gs.cat": true, "gs.sub": true, "gs.unit": true, "gs.ofarr": true,
-	"s.base": true, "s.off": true, "s.len": true, "s.cap": true, "mkslice": true, "i.tag": true, "i.pay": true, "mkiface": true, "as": true, "const": true,
+	"ref.root": true, "s.base": true, "s.off": true, "s.len": true, "s.cap": true, "mkslice": true, "i.tag": true, "i.pay": true, "mkiface": true, "as": true, "const": true,
 	"Slice": true, "Iface": true, "define-fun": true, "declare-const": true, "declare-fun": true, "pattern": true, "Real": true, "to_real": true, "xor": true}
 
 func isSymChar(c byte) bool {
@@ -217,6 +223,9 @@ func (vc *FnVC) indexDefs() {
 		if strings.HasPrefix(d, "(define-fun ") {
 			vc.defIndex[declName(d)] = i
 		}
+	}
+	for i, n := range vc.factDefs {
+		vc.defIndex[n] = i
 	}
 	vc.defIndexed = len(vc.defs)
 }
